@@ -30,6 +30,14 @@ WidthToObjectAlt(g) == CASE g \in {"int", "int8", "int16", "int32"} -> "int"
                          [] g = "float32" -> "float"
                          [] OTHER -> "err"
 
+\* Go types the modules register converters for (stdlib/time, stdlib/json): the uGO type they convert to and
+\* the Go type ToInterface gives back - the same value for a time (also the zero time), a location and a raw
+\* message (nil and empty interchangeable), the same numeric value for a duration
+RegKinds == {"time", "timeptr", "duration", "location", "rawjson"}
+RegToObject(g) == CASE g \in {"time", "timeptr"} -> "time" [] g = "duration" -> "int" [] g = "location" -> "location" [] g = "rawjson" -> "rawMessage"
+RegBack(g) == CASE g \in {"time", "timeptr"} -> "time" [] g = "duration" -> "int64" [] g = "location" -> "location" [] g = "rawjson" -> "rawjson"
+Wraps == {"none", "seq", "map", "seqfirst", "seqmid", "mapmulti", "nestseq", "nestmap"}
+
 \* trees: [k |-> "leaf", v] | [k |-> "seq", es] | [k |-> "map", es]  (map keys are "k1", "k2", ...)
 RECURSIVE ToI(_), ToO(_)
 ToI(t) == IF t.k = "leaf" THEN [k |-> "leaf", v |-> LeafToI(t.v)]
@@ -50,7 +58,8 @@ vars == <<c, ph>>
 Init == /\ ph = 0
         /\ \/ c \in [d : {"u2g"}, t : Trees(ULeaf)]
            \/ c \in [d : {"g2u"}, t : Trees(GCanon)]
-           \/ c \in [d : {"width"}, g : Widths, wrap : {"none", "seq", "map", "seqfirst", "seqmid", "mapmulti", "nestseq", "nestmap"}]
+           \/ c \in [d : {"width"}, g : Widths, wrap : Wraps]
+           \/ c \in [d : {"reg"}, g : RegKinds, wrap : Wraps]
 Judge == ph = 0 /\ ph' = 1 /\ UNCHANGED c
 Next == Judge
 Spec == Init /\ [][Next]_vars
@@ -62,6 +71,7 @@ Inverse == ph = 1 => CASE c.d = "u2g" -> ToO(ToI(c.t)) = c.t
 Export == ph = 1 =>
   CSVWrite("%1$s", <<ToJson(CASE c.d = "u2g" -> [d |-> "u2g", t |-> c.t, img |-> ToI(c.t)]
                               [] c.d = "g2u" -> [d |-> "g2u", t |-> c.t, img |-> ToO(c.t)]
+                              [] c.d = "reg" -> [d |-> "reg", g |-> c.g, wrap |-> c.wrap, obj |-> RegToObject(c.g), back |-> RegBack(c.g)]
                               [] OTHER -> [d |-> "width", g |-> c.g, wrap |-> c.wrap,
                                            obj |-> WidthToObject(c.g), alt |-> WidthToObjectAlt(c.g)])>>, IOEnv.OUT)
 =============================================================================
